@@ -457,6 +457,20 @@ class DataFileManager:
         table_path = self.file_manager.table_path
         return os.path.join(table_path, path.lstrip("/"))
 
+    def _get_arrow_write_path(self, path: str) -> str:
+        """_get_arrow_path for a data file about to be WRITTEN.
+
+        On the local backend the writer stages a temp file in the target's
+        parent directory; for a path that resolves to the table root itself
+        that directory is outside the table, so such a target is refused.
+        """
+        arrow_path = self._get_arrow_path(path)
+        if isinstance(self.storage, LocalStorageBackend) and arrow_path == self.storage._real_base_path():
+            raise IsADirectoryError(
+                f"Cannot write a data file at the table root itself: '{path}' resolves to '{arrow_path}'"
+            )
+        return arrow_path
+
     def create_arrow_schema(self, iceberg_schema: Schema) -> pa.Schema:
         """Convert Iceberg schema to PyArrow schema"""
         if iceberg_schema.schema_id in self._arrow_schema_cache:
@@ -632,7 +646,7 @@ class DataFileManager:
         arrow_schema = self.create_arrow_schema(iceberg_schema)
 
         # Convert path for PyArrow (adds bucket prefix for S3)
-        arrow_path = self._get_arrow_path(file_path)
+        arrow_path = self._get_arrow_write_path(file_path)
 
         # Convert records to Arrow table to compute statistics before writing
         lower_bounds = None
@@ -757,7 +771,7 @@ class DataFileManager:
         arrow_schema = self.create_arrow_schema(iceberg_schema)
 
         # Convert path for PyArrow (adds bucket prefix for S3)
-        arrow_path = self._get_arrow_path(file_path)
+        arrow_path = self._get_arrow_write_path(file_path)
 
         # Compute column bounds before writing (parity with write_data_file so
         # pandas-written files participate in pruning)
